@@ -87,7 +87,11 @@ Defaults_Failing(h) ==
   UNION {LET e == h[i] x == Expected(CellOf(h[i])) IN
            (IF e.panicked THEN {"partialNodeRuns"} ELSE {})
            \cup (IF <<e.prep, e.exec, e.fb, e.post>> # <<x.prep, x.exec, x.fb, x.post>> THEN {"partialLifecycle"} ELSE {})
-           \cup (IF <<e.execarg, e.postprep, e.postexec>> # <<x.execarg, x.postprep, x.postexec>> THEN {"partialValues"} ELSE {})
+           \* (what post is shown for a Result built by NewErrorResult(nil) - a nil value, or an error state without an
+           \* error - is the constructor's business; that the run then succeeds with post's action is the lifecycle's)
+           \cup (IF <<e.execarg, e.postprep, e.postexec>> # <<x.execarg, x.postprep, x.postexec>>
+                    /\ ~(e.xnil /\ e.execarg = x.execarg /\ e.postprep = x.postprep /\ e.postexec = "err" /\ x.postexec = "nil")
+                 THEN {"partialValues"} ELSE {})
            \cup (IF e.iserr # x.iserr \/ (x.iserr /\ ~e.errmatch) THEN {"partialError"} ELSE {})
            \cup (IF e.action # x.action \/ e.route # Route(CellOf(e)) THEN {"partialAction"} ELSE {})
          : i \in {j \in 1..Len(h) : h[j].ev = "defaults"}}
